@@ -6,3 +6,5 @@ import MimicProps.C18
 #print axioms MimicProps.C18.resumes_after_remove
 #print axioms MimicProps.C18.finds_iff_live
 #print axioms MimicProps.C18.general_n
+#print axioms MimicProps.C18.code_refines_model
+#print axioms MimicProps.C18.code_ids_unique_and_admission
